@@ -223,7 +223,11 @@ impl Recorder {
                 let helper = self.helper_fns.contains(&function)
                     || (ident.is_none() && HELPER_PARAMS.iter().any(|h| *h == names.as_slice()));
                 if self.judged() && !helper {
-                    for ((name, ty), arg) in params.iter().zip(args.iter()) {
+                    for (i, ((name, ty), arg)) in params.iter().zip(args.iter()).enumerate() {
+                        // two parameters of one name: the body sees the later one; the earlier one is not observable
+                        if params[i + 1..].iter().any(|p| p.0 == *name) {
+                            continue;
+                        }
                         match arg {
                             Some(a) => self.push(json!({"ev": "arg", "kind": if native {"native"} else {"lang"}, "ty": type_to_wire(ty), "v": value_full(a, 0, &mut vec![])})),
                             None => self.push(json!({"ev": "unbound", "name": &**name})),
